@@ -990,6 +990,51 @@ def _known_empty(st, t):
     return False
 
 
+def is_flag_fill(t):
+    """fill(<bool constant>, n): returns False / True for the constant, None otherwise."""
+    if t[0] == "fill":
+        for a_ in as_poly(t[1]).atoms():
+            if isinstance(a_, tuple) and len(a_) == 2 and a_[0] == "val" and isinstance(a_[1], str):
+                if "false" in a_[1]:
+                    return False
+                if "true" in a_[1]:
+                    return True
+    return None
+
+
+def flag_count(st, t):
+    """The number of `true` entries of a vector of flags, as a polynomial over ntrue(leaf) atoms; None when a write's
+    effect on the count is not determined by the path (the overwritten flag was not tested)."""
+    c = is_flag_fill(t)
+    if c is not None:
+        return t_len(t) if c else Poly.const(0)
+    if t[0] == "v":
+        return Poly.atom(("ntrue", t))
+    if t[0] == "upd" and t[3] == () and isinstance(t[4], tuple) and t[4][0] == "bool" and t[4][1] in (("true",), ("false",)):
+        base = flag_count(st, t[1])
+        if base is None:
+            return None
+        key = ("flag", t[1], as_poly(t[2]))
+        was = True if (key, True) in st.unk else (False if (key, False) in st.unk else None)
+        now = t[4][1] == ("true",)
+        if was is None:
+            return None
+        return base + (int(now) - int(was))
+    return None
+
+
+def flag_read_fact(st, base, truth):
+    """A flag read as false: not every flag is set; read as true: at least one is."""
+    n = flag_count(st, base)
+    if n is None or n.is_const():
+        return
+    st.add_ge(t_len(base) - n)
+    if truth:
+        st.add_ge(n - 1)
+    else:
+        st.add_ge(t_len(base) - n - 1)
+
+
 def term_size(t):
     if not isinstance(t, tuple):
         return 1
